@@ -25,7 +25,7 @@ import (
 func init() {
 	Registry["C16"] = &Check{
 		Scenarios: c16Scenarios,
-		Rule: "every answer of the grid is edited in place by its owner after it was checked (Result-Code AVP overwritten, AVP list extended): later answers are unaffected; the client side of a multistream association dialled with sm.Client (watchdog on / off, WatchdogStream 0 / 5) answers the peer's DWR on the stream it arrived on; the version octet of the request rotates over {1, 0, 2, 255}: the answer is built as a version-1 message; requests no handler is registered for (STR, CCR, RAR, an undefined command; P bit set / clear; T bit) on a bare ServeMux and on a state machine after the handshake: whatever the library sends back must mirror the request; complete grid: hop-by-hop and end-to-end ids from {0,1,2^31,2^32-1}^2 x all 256 command flag bytes x every (application, command) of the embedded dictionaries x result code {0 (none asked), 2001, 5012, 2^32-1} through Message.Answer; a second CER on a connection whose handshake has completed (if it is answered, the answer must mirror it); the state machine's success CEA, each failure CEA (5010, 5017, 5012, and 5012 for a CER that cannot be unmarshalled because the connection's dictionary lacks an AVP the CER struct names) and DWA for the same id grid over an in-memory transport; the same requests arriving on SCTP streams {0,1,5,15} of the in-memory multistream backend (and on a stream-less transport), answered by a handler through Answer().WriteTo (answers of ordinary size and of 65400..200000 octets, around and beyond 64 KiB; requests with one AVP and requests that consist of their header only; requests that are first relayed - the received message written with explicit other streams to an upstream multistream writer that accepts or refuses - and then answered; replies on a connection whose writer stream the application has pinned with SetWriterStream) and by the state machine: the backend must record the answer on the request's stream, also when the answer to a request is written later, while a request from another stream is being handled (all 16 stream pairs), also when the first 1 or 2 write attempts of that answer fail with a temporary error and are retried (WriteToWithRetry); and two application goroutines answering requests of different streams concurrently (every schedule up to preemption bound 2, thorough 3), on an association attached with NewConn and on one accepted by a Server with ReadTimeout and WriteTimeout set.",
+		Rule: "a state machine shared by an accepted connection and a client dial still waiting for its CEA: CER / refused CER / DWR arriving on the accepted connection are answered there or not at all (nothing but the client's CER reaches the dialled connection); unhandled and undefined commands on streams {0,1,5,65535} of a multistream association; every answer of the grid is edited in place by its owner after it was checked (Result-Code AVP overwritten, AVP list extended): later answers are unaffected; the client side of a multistream association dialled with sm.Client (watchdog on / off, WatchdogStream 0 / 5) answers the peer's DWR on the stream it arrived on; the version octet of the request rotates over {1, 0, 2, 255}: the answer is built as a version-1 message; requests no handler is registered for (STR, CCR, RAR, an undefined command; P bit set / clear; T bit) on a bare ServeMux and on a state machine after the handshake: whatever the library sends back must mirror the request; complete grid: hop-by-hop and end-to-end ids from {0,1,2^31,2^32-1}^2 x all 256 command flag bytes x every (application, command) of the embedded dictionaries x result code {0 (none asked), 2001, 5012, 2^32-1} through Message.Answer; a second CER on a connection whose handshake has completed (if it is answered, the answer must mirror it); the state machine's success CEA, each failure CEA (5010, 5017, 5012, and 5012 for a CER that cannot be unmarshalled because the connection's dictionary lacks an AVP the CER struct names) and DWA for the same id grid over an in-memory transport; the same requests arriving on SCTP streams {0,1,5,15} of the in-memory multistream backend (and on a stream-less transport), answered by a handler through Answer().WriteTo (answers of ordinary size and of 65400..200000 octets, around and beyond 64 KiB; requests with one AVP and requests that consist of their header only; requests that are first relayed - the received message written with explicit other streams to an upstream multistream writer that accepts or refuses - and then answered; replies on a connection whose writer stream the application has pinned with SetWriterStream) and by the state machine: the backend must record the answer on the request's stream, also when the answer to a request is written later, while a request from another stream is being handled (all 16 stream pairs), also when the first 1 or 2 write attempts of that answer fail with a temporary error and are retried (WriteToWithRetry); and two application goroutines answering requests of different streams concurrently (every schedule up to preemption bound 2, thorough 3), on an association attached with NewConn and on one accepted by a Server with ReadTimeout and WriteTimeout set.",
 		Assume: []string{"single default schedule per exchange", "in-memory SCTP backend (hook diam/sctp_verif.go)"},
 		QuickBudget: 120, ThoroughBudget: 900,
 	}
@@ -46,6 +46,7 @@ func c16Scenarios(tier string) []*Scenario {
 	out = append(out, &Scenario{Name: "state-machine/second-cer", Seq: c16SecondCER})
 	out = append(out, &Scenario{Name: "unhandled-requests", Seq: c16Unhandled})
 	out = append(out, &Scenario{Name: "unhandled-requests/multistream", Seq: c16UnhandledStream})
+	out = append(out, &Scenario{Name: "state-machine/shared-with-a-dial-in-progress", Seq: c16SharedDuringDial})
 	out = append(out, &Scenario{Name: "state-machine/client-side-dwa", Seq: c16ClientDWA})
 	out = append(out, &Scenario{Name: "streams/handler-answer", Seq: c16Streams})
 	out = append(out, &Scenario{Name: "streams/deferred-answer", Seq: c16Deferred})
@@ -760,6 +761,74 @@ func c16Unhandled(r *SeqResult) {
 	}
 	if r.Sample == "" {
 		r.Sample = "unhandled STR / CCR / RAR / undefined command, P bit set and clear, on a bare ServeMux and on a state machine after the handshake: whatever comes back must mirror the request"
+	}
+}
+
+// c16SharedDuringDial: one state machine serves an accepted connection while a client dial through
+// the same state machine is still waiting for its CEA. Requests arrive on the accepted connection
+// (a CER, then a DWR) at that moment: whatever the library answers goes to the connection the
+// request arrived on - nothing but the client's own CER is ever written to the dialled connection.
+func c16SharedDuringDial(r *SeqResult) {
+	for _, hbh := range c16IDs {
+		for _, kind := range []string{"cer-ok", "cer-noapp", "dwr"} {
+			hbh, kind := hbh, kind
+			var out, in *vnet.Conn
+			s := vs.Run(nil, false, 5*time.Second, false, func() {
+				mach := sm.New(c16Settings())
+				out, in = vnet.NewConn("OUT"), vnet.NewConn("IN")
+				out.Pieces, in.Pieces = 1, 1
+				cli := &sm.Client{Handler: mach, Dict: dict.Default, MaxRetransmits: 0, RetransmitInterval: time.Second,
+					AuthApplicationID: []*diam.AVP{diam.NewAVP(avp.AuthApplicationID, avp.Mbit, 0, datatype.Unsigned32(4))}}
+				vs.GoNamed("peer-out", true, func() {
+					p := &Peer{C: out}
+					if cer := p.Next(); cer != nil {
+						vs.TimeSleep(500 * time.Millisecond) // the dialled peer is slow to answer
+						out.Deliver(peerAnswer(cer, 2001, true))
+					}
+				})
+				vs.GoNamed("dialer", true, func() { cli.NewConn(out, "peer") })
+				vs.TimeSleep(100 * time.Millisecond) // the client's CER is out, its handshake waits
+				in.Deliver(c16Request(kind, hbh, 0x22222222, 0x80))
+				in.Deliver(c16Request("dwr", hbh+1, 0x33333333, 0x80))
+				if _, err := diam.NewConn(in, "peer2", mach, dict.Default); err != nil {
+					return
+				}
+				vs.TimeSleep(time.Second)
+			})
+			s.Teardown()
+			r.Cases++
+			r.Distinct++
+			if r.Violation != "" {
+				continue
+			}
+			v := ""
+			msgs, _ := refcodec.SplitStream(out.Out)
+			for _, raw := range msgs {
+				if h, err := refcodec.DecodeHeader(raw); err == nil && h.Flags&0x80 == 0 {
+					v = fmt.Sprintf("an answer (command %d, ids %#x/%#x) was written to the DIALLED connection; the request it answers arrived on the accepted one", h.Code, h.HbH, h.E2E)
+				}
+			}
+			msgs, _ = refcodec.SplitStream(in.Out)
+			for _, raw := range msgs {
+				h, err := refcodec.DecodeHeader(raw)
+				if err != nil || h.Flags&0x80 != 0 {
+					continue
+				}
+				if !(h.HbH == hbh && h.E2E == 0x22222222) && !(h.HbH == hbh+1 && h.E2E == 0x33333333 && h.Code == 280) {
+					v = fmt.Sprintf("answer with ids %#x/%#x (command %d) on the accepted connection mirrors none of the requests that arrived on it", h.HbH, h.E2E, h.Code)
+				}
+			}
+			if p := s.Panics(); len(p) > 0 && v == "" {
+				v = "panic: " + strings.Join(p, "; ")
+			}
+			if v != "" {
+				r.Violation = fmt.Sprintf("state machine shared by an accepted connection and a client dial that is still waiting for its CEA; %s with hop-by-hop %#x, then a DWR, arrive on the accepted connection: %s", kind, hbh, v)
+				r.Case = map[string]interface{}{"kind": kind, "hbh": hbh}
+			}
+		}
+	}
+	if r.Sample == "" {
+		r.Sample = "CER / refused CER / DWR on an accepted connection while a dial through the same state machine waits for its CEA"
 	}
 }
 
